@@ -28,6 +28,13 @@ Cases == [ae : AE, ct : CT, size : Sizes, compressible : BOOLEAN, explicit : BOO
 BigCases == [ae : {"gzip", "identity"}, ct : {"json"}, size : BigSizes, compressible : BOOLEAN, explicit : {TRUE}, status : {200},
              pre : {FALSE}, setcl : BOOLEAN, flush : BOOLEAN, interim : {FALSE}, writes : {"two", "32k"}, level : {1}, pos : {"alone"}]
 
+\* the body leaves the handler the way io.Copy / a proxy copy loop delivers it: in pieces, every piece in the SAME buffer
+\* ("reuse": thirds of the body; "reuse32k": 32 kB pieces of a body of a megabyte and more)
+ReuseCases == [ae : {"gzip", "identity"}, ct : {"json", "plain"}, size : {"min-1", "min+1", "big"}, compressible : BOOLEAN, explicit : BOOLEAN,
+               status : {200}, pre : BOOLEAN, setcl : BOOLEAN, flush : BOOLEAN, interim : {FALSE}, writes : {"reuse"}, level : {1}, pos : {"alone", "inner"}]
+              \cup [ae : {"gzip", "identity"}, ct : {"json"}, size : {"mb+1", "cap+1"}, compressible : {TRUE}, explicit : {TRUE}, status : {200},
+                    pre : {FALSE}, setcl : BOOLEAN, flush : {FALSE}, interim : {FALSE}, writes : {"reuse32k"}, level : {1}, pos : {"alone"}]
+
 Eligible(c) == ListsGzip(c.ae) /\ Matches(c.ct) /\ AtLeastMin(c.size) /\ AtMostCap(c.size) /\ ~c.pre
 
 \* o = [status, ce (received Content-Encoding or ""), cl (received Content-Length or -1), rawlen,
